@@ -377,6 +377,7 @@ where
     if airs.len() != instances.len()
         || airs.len() != public_values.len()
         || airs.len() != proof_targets.degree_bits.len()
+        || airs.len() != lookup_terminals.len()
     {
         return Err(VerificationError::InvalidProofShape(
             "Mismatch between number of AIRs, instances, public values, or degree bits".to_string(),
